@@ -162,6 +162,8 @@ type Obs struct {
 	SelCount int64 `json:"sel_count"`
 	SelFind  int64 `json:"sel_find"`
 	SelMaps  int64 `json:"sel_maps"`
+	// SelList: Statement.Selects of that comparison
+	SelList []string `json:"sel_list"`
 	// composite-key table and the single-record finders into destinations carrying a key
 	CKRows   [][3]int64 `json:"ck_rows"`   // a, b, v
 	CKProbes [][5]int64 `json:"ck_probes"` // finder (0 first 1 take 2 last), a, b, found (0/1; 2 = another error), v
@@ -842,6 +844,15 @@ func selectedColumns(db *gorm.DB, in Input, o *Obs) {
 	if in.SelNull {
 		sel = []interface{}{"n"}
 	}
+	o.SelList = []string{}
+	for _, a := range sel {
+		switch v := a.(type) {
+		case string:
+			o.SelList = append(o.SelList, v)
+		case []string:
+			o.SelList = append(o.SelList, v...)
+		}
+	}
 	var cnt int64
 	if err := chain(db, in).Model(&Item{}).Select(sel[0], sel[1:]...).Count(&cnt).Error; err != nil {
 		o.Errs = append(o.Errs, "sel_count: "+err.Error())
@@ -1073,7 +1084,7 @@ func term(in Input, o Obs) string {
 		gRows(o.CPage), gRows(o.Page), lib.Z(o.CPageN), gRows(o.SibAsc), gRows(o.SibDesc),
 		lib.Bool(o.GRun), gRows(o.GFind),
 		lib.ListOf(in.SelCols, func(c [2]string) string { return lib.Pair(lib.Str(c[0]), lib.Str(c[1])) }),
-		lib.ListOf(o.SelRecs, gRec), lib.ListOf(o.SelMapRecs, gMapRec))
+		lib.ListOf(o.SelRecs, gRec), lib.ListOf(o.SelMapRecs, gMapRec), lib.ListOf(o.SelList, lib.Str))
 }
 
 // ---- generation ----
